@@ -21,11 +21,14 @@ TIERS = {
 FAULT_KINDS = []
 PROBES = ["unset_strict", "unset_nonstrict", "secret_planted_and_unset_read", "quoted_reserved_name", "digit_initial_name", "non_ascii_value",
           "newline_value", "empty_value", "field_named_env", "let_env", "read_in_library", "empty_environment", "var_named_env",
-          "env_passed_as_value", "tiny_environment", "failing_file_built_first", "let_env_variant", "reached_by_recursive_walk", "wellknown_name"]
+          "env_passed_as_value", "tiny_environment", "failing_file_built_first", "let_env_variant", "reached_by_recursive_walk", "wellknown_name", "same_file_built_twice", "null_test_position"]
 PROBES_OPTIONAL = False
 RESERVED = ["let", "import", "self", "mod", "out", "assert", "true", "false", "NULL", "select", "func", "module", "map", "filter", "reduce",
             "include", "fail", "not", "in", "is", "as", "env", "convert", "constraint", "TRACE"]
-POSITIONS = ["top", "func", "module", "quoted", "lib", "format", "tuple_value", "list_value", "func_arg", "module_arg", "tuple_holding_env"]
+POSITIONS = ["top", "func", "module", "quoted", "lib", "format", "tuple_value", "list_value", "func_arg", "module_arg", "tuple_holding_env",
+             "null_compare", "null_compare_flipped", "select_on_null"]
+# positions whose value is a function of set/unset only (a comparison with NULL), not the variable's text
+NULL_TESTS = {"null_compare": (False, True), "null_compare_flipped": (True, False), "select_on_null": ("is-set", "is-null")}
 VALUE_CLASSES = ["ascii", "empty", "blanks", "dquote", "squote", "dollar", "backquote", "backslash", "newline", "tab", "bmp", "astral",
                  "combining", "rtl", "long", "equals", "jsonish", "percent_at"]
 
@@ -85,6 +88,8 @@ def make_name(rng, used):
             n = "_" + rng.token(4)
         elif kind == "digit":
             n = rng.choice("0123456789") + rng.token(3).upper()
+            if rng.chance(40):
+                n = "".join(rng.choice("0123456789") for _ in range(rng.between(1, 4)))   # all digits, leading zeros included
         elif kind == "reserved":
             n = rng.choice(RESERVED)
         elif kind == "wellknown":
@@ -149,7 +154,7 @@ def generate(rng, tier, idx):
     if not reads:
         reads.append({"name": make_name(rng, used), "set": False, "pos": "top"})
     for r in reads:
-        if needs_quote(r["name"]) and r["pos"] not in ("quoted",):
+        if needs_quote(r["name"]) and r["pos"] not in ("quoted",) and r["pos"] not in NULL_TESTS:
             r["pos"] = "quoted"
     # a direct read after env was handed around as a value (two cooperating sites)
     if any(r["pos"] in ("func_arg", "module_arg", "tuple_holding_env") for r in reads) and readable:
@@ -173,7 +178,7 @@ LET_ENV_SRC = {
     "after_use": 'let first = env.HOME;\nlet env = {HOME = "shadowed"};\nout json {v = env.HOME};\n',
     "constraint_stmt": 'constraint env = "a" | "b";\nout json {v = env.HOME};\n',
 }
-PRE_FAILS = ["runtime_fail", "unset_var", "type_error", "syntax_error", "missing_import"]
+PRE_FAILS = ["runtime_fail", "unset_var", "type_error", "syntax_error", "missing_import", "same_file", "same_file"]
 PRE_FAIL_SRC = {
     "runtime_fail": 'let boom = fail "pre-file fails";\n',
     "unset_var": "let nope = env.UCGSIM_PRE_UNSET;\n",
@@ -213,6 +218,12 @@ def render_programs(world):
             L.append("let m%d = module {e = env} => { let r = mod.e.%s; };\nlet v%d = m%d{}.r;" % (i, r["name"], i, i))
         elif pos == "tuple_holding_env":
             L.append("let h%d = {e = env};\nlet v%d = h%d.e.%s;" % (i, i, i, r["name"]))
+        elif pos == "null_compare":
+            L.append("let v%d = %s == NULL;" % (i, s))
+        elif pos == "null_compare_flipped":
+            L.append("let v%d = NULL != %s;" % (i, s))
+        elif pos == "select_on_null":
+            L.append('let v%d = select (%s == NULL, "x") => { true = "is-null", false = "is-set" };' % (i, s))
         elif pos == "tuple_value":
             L.append("let v%d = {k = %s}.k;" % (i, s))
         elif pos == "list_value":
@@ -267,11 +278,16 @@ def execute(world, sb, res):
         status = 1 if [l for l in out.split("\n")[1:] if l.strip()] else 0
         art_dir = "proj/sub"
     elif pre:
-        sb.write("proj/pre.ucg", PRE_FAIL_SRC[pre])
-        res.probe("failing_file_built_first")
-        inv = sb.invoke(flags + ["build", "pre.ucg", "main.ucg"], cwd="proj", env=envmap)
-        # what the process says about main.ucg is everything after its `Building` line
-        cut = inv.out.find("Building main.ucg")
+        if pre == "same_file":
+            # the file itself is listed twice: whatever the first build left in the process must not change the second
+            res.probe("same_file_built_twice")
+            inv = sb.invoke(flags + ["build", "main.ucg", "main.ucg"], cwd="proj", env=envmap)
+        else:
+            sb.write("proj/pre.ucg", PRE_FAIL_SRC[pre])
+            res.probe("failing_file_built_first")
+            inv = sb.invoke(flags + ["build", "pre.ucg", "main.ucg"], cwd="proj", env=envmap)
+        # what the process says about main.ucg is everything after its (last) `Building` line
+        cut = inv.out.rfind("Building main.ucg")
         out = inv.out[cut:] if cut >= 0 else ""
         if cut < 0:
             res.violate("C18.not-built", pre, "main.ucg was not built after pre.ucg failed\n%s" % inv.out[-800:])
@@ -314,6 +330,8 @@ def execute(world, sb, res):
         cls = e["cls"] if e else None
         nontrivial = (not r["set"]) or (cls not in ("ascii",)) or r["pos"] == "quoted"
         res.key([r["pos"], r["set"], world["strict"], cls, name_class(r["name"])], nontrivial)
+        if r["pos"] in NULL_TESTS:
+            res.probe("null_test_position")
         if name_class(r["name"]) == "reserved":
             res.probe("quoted_reserved_name")
         if r["name"] in ("UCG_IMPORT_PATH", "PATH", "USER", "PWD", "OLDPWD", "XDG_CACHE_HOME", "TERM", "LANG", "LC_ALL", "RUST_LOG", "TMPDIR", "SHELL", "EDITOR", "NO_COLOR"):
@@ -357,7 +375,13 @@ def execute(world, sb, res):
         else:
             for i, r in enumerate(world["reads"]):
                 got = art.get("v%d" % i, "<absent>")
-                if r["set"]:
+                if r["pos"] in NULL_TESTS:
+                    want = NULL_TESTS[r["pos"]][0 if r["set"] else 1]
+                    if got != want:
+                        res.violate("C18.null-test", r["pos"], "%s at position %s gave %r for a variable that is %s; expected %r\n%s" % (
+                            sel(r["name"]), r["pos"], got, "set" if r["set"] else "unset (non-strict)", want, ctx))
+                        break
+                elif r["set"]:
                     want = envmap[r["name"]]
                     if got != want:
                         e = next(e for e in world["env"] if e["name"] == r["name"])
